@@ -228,9 +228,10 @@ class ExpressionExactMatch(Expression):
         if self.optional == "any":
             return self._get_parent_groups(found_groups)
 
-        filtered_list = self._filter_exact_matches(found_groups)
-        if filtered_list:
-            return self._get_parent_groups(filtered_list)
+        # (An exact match of the whole string is not a group: only exact matches that are groups end the search here.)
+        exact_results = self._get_parent_groups(self._filter_exact_matches(found_groups))
+        if exact_results:
+            return exact_results
 
         # Basically if we don't have an exact match above, do the more complex matching including optional
         if self.left:
